@@ -284,7 +284,7 @@ func init() {
 			if c.Tape.Choose(simrt.StGen, 6, 0) == 1 {
 				w = sameNameWF(c)
 			} else {
-				w = Generate(c.Tape, tierProfile(profC01, c.Tier))
+				w = Generate(c.Tape, crashTierProfile(profC01, c.Tier))
 			}
 			ex := Eval(w)
 			var fault *FaultSpec
@@ -546,7 +546,7 @@ func init() {
 	Register(&Check{ID: "C03", Level: "fault_enumeration",
 		Rule: "one case = one generated workflow under one tape-chosen schedule; for that schedule EVERY distinct crash state (fs after each journalled mutation) is used as a kill point, and for each the history 'cleanup of _scipipe_tmp*/FIFO entries + re-run' is executed and must converge: exit 0, file set and bytes = reference (= uninterrupted result), outputs final before the re-run keep (inode, mtime), no task with all outputs final is re-executed. For tape-chosen states additionally: re-run WITHOUT cleanup (must refuse with exit != 0 whenever a leftover exists, finalized files still correct) and a nested crash during recovery (kill the re-run at a tape-chosen crash state, cleanup, re-run). evaluations = incarnations; distinct = event-log hash over the whole history; non-trivial = >=2 tasks and >=1 non-default choice",
 		Run: func(c *Case) Verdict {
-			w := Generate(c.Tape, tierProfile(profC03, c.Tier))
+			w := Generate(c.Tape, crashTierProfile(profC03, c.Tier))
 			ex := Eval(w)
 			c.Sample = "crash/cleanup/re-run at every crash state: " + sample(w)
 			inc := RunInc(w, c.Tape, nil, 0, IncOpts{KillAt: -1, Strategy: strategyOf(c.Tape), Trace: c.Trace, Snapshots: true})
